@@ -921,8 +921,10 @@ def run_program(case, mode, out=None):
             if isq(src):
                 info["u_src"] = max(info.get("u_src", 0), gen.U.get(src.dtype, 0))
                 info["eta_src"] = max(info.get("eta_src", 0), gen.ETA.get(src.dtype, 0))
+                qops = [o for o in operands if isinstance(o, QBytesTensor) and o.numel()]
+                if qops:
+                    info["cmax"] = max(float(O.codes64(o).abs().max()) for o in qops)
                 if isinstance(src, QBytesTensor):
-                    info["cmax"] = float(O.codes64(src).abs().max()) if src.numel() else 1.0
                     if klass == "neg" and not src.qtype.is_floating_point:
                         # -(-128) is not representable: one step of the scale is allowed there
                         sc = src._scale.to(torch.float64)
@@ -961,7 +963,13 @@ def run_program(case, mode, out=None):
             for j, v in enumerate(P.vals):
                 if not isinstance(v, torch.Tensor):
                     continue
-                tw_changed = isinstance(P.twins[j], torch.Tensor) and not _teq(P.twins[j], tw_before[j])
+                # entries the float program may change: the destination of an in-place op and its float aliases (twins that
+                # share the destination twin's storage) -- decided by storage, not by values (twins drift from the quantized
+                # values by rounding, so "the copy wrote identical values" must not be mistaken for "untouched")
+                tw_changed = False
+                if inplace is not None and isinstance(P.twins[j], torch.Tensor):
+                    dtw = P.twins[idxs[inplace]]
+                    tw_changed = j == idxs[inplace] or (isinstance(dtw, torch.Tensor) and P.twins[j].untyped_storage().data_ptr() == dtw.untyped_storage().data_ptr())
                 if tw_changed:
                     if inplace is not None and j != idxs[inplace]:
                         # a float alias of the destination: the quantized world may legitimately hold an independent
